@@ -136,6 +136,7 @@ func checkC07(c *Check) {
 	}
 	p.Field("fsm", "remoteID")
 	p.Field("stateTransition", "to")
+	c.cleanupContract("C07.4 loser-is-closed")
 	out, in := p.MustConst("out"), p.MustConst("in")
 	openConfirm, established := p.MustConst("openConfirmState"), p.MustConst("establishedState")
 	h := c.peerHooks(fn)
